@@ -284,7 +284,7 @@ def check_request(W, rec, rng):
         parts = None
         nparts = 1
         biggest = len(body)
-    mcl = rng.choice([None, None, 5, len(body), len(body) + 1, max(0, len(body) - 1), 10**7])
+    mcl = rng.choice([None, None, 5, len(body), len(body) + 1, max(0, len(body) - 1), 10**7, 0])
     pl = rng.choice([None, 1, nparts, nparts + 1, 1000])
     with_cl = rng.random() < 0.6
     terminated = rng.random() < 0.5
@@ -351,7 +351,17 @@ def check_request(W, rec, rng):
         # later look either refuses again or - limits being pure guards - shows what an unlimited parse shows; never
         # the part of the form that lies behind the point where parsing was abandoned.
         later = None
-        for _ in range(3):
+        for attempt in range(3):
+            if attempt == 1 and len(body) % 2:
+                # ... and in between the application asks for the raw body (an error handler logging the request)
+                try:
+                    r.get_data()
+                    rec.observe("get_data_between_two_looks_at_a_refused_form")
+                except (RequestEntityTooLarge, ClientDisconnected):
+                    pass
+                except Exception as e:  # noqa: BLE001
+                    later = ("EXC", type(e).__name__, str(e)[:80])
+                    break
             try:
                 later = ("ok", [(a, v) for a, v in r.form.items(multi=True)], [(a, f.read()) for a, f in r.files.items(multi=True)])
                 break
